@@ -39,6 +39,8 @@ def gen_params(ctx, double_only=False):
         force["nx"] = int(rng.integers(10, 14)) if force["nta"] == 0 else int(rng.integers(16, 22))
         force["var_mode"] = calib.VAR_MODES[(k // 3 + k) % len(calib.VAR_MODES)]  # every variance form for single and double ended
         p = calib.random_params(rng, double, quick=True, **force)
+        if k % 5 == 1:
+            p["power_loss"] = float(rng.choice([0.5, 1.5, 3.0]))  # strong attenuation of the optical power along the fibre (e^-0.5 .. e^-3 one way)
         if k % 7 == 3:
             p["fix"], p["fix_var"] = ("gamma", 1e-2)
         if k % 7 == 5:
@@ -92,7 +94,7 @@ def run_params(ctx, plist, which, what):
 
 
 def run(ctx):
-    ctx.extra["rule"] = ("seeded calibration results (single and double ended, 0/1/2 splices, noise 0.2-5%, all variance forms, free and fixed parameters); at every (x, time) the reported "
+    ctx.extra["rule"] = ("seeded calibration results (single and double ended, 0/1/2 splices, noise 0.2-5%, all variance forms, free and fixed parameters, weak and strong optical attenuation); at every (x, time) the reported "
                          f"tmpf_var, tmpb_var, tmpw_var are compared with T_st^2 s_st + T_ast^2 s_ast + J' p_cov J evaluated exactly from the reported p_cov (2^{E} relative to the absolute sums)")
     ctx.trusted += ["harness vlib/props/c05.py", "translator vlib/translators/varterms.py"]
     ctx.assumptions += ["the reported temperature is the model equation (C04)", "tmpw weights treated as constants, as the property states"]
